@@ -102,3 +102,30 @@ func TestExhaustiveBig(t *testing.T) {
 }
 
 func TestRegressBig(t *testing.T) { run.Regress(t, bigSpec) }
+
+// TestExhaustiveSizes measures the distance to zig-zag polylines of every number of
+// vertices from 2 to 3 000 (thorough: 12 000), the nearest point inside the first, a
+// middle and the last segment: whatever length an implementation changes its ways at
+// (a block, a pooled buffer, a worker's share), it is in the range.
+func TestExhaustiveSizes(t *testing.T) {
+	shard, shards := run.Shard()
+	hi := 3000
+	if run.Thorough() {
+		hi = 12000
+	}
+	for n := 2; n <= hi; n++ {
+		if n%shards != shard {
+			continue
+		}
+		for _, k := range []int{0, n / 2, n - 2} {
+			if k < 0 || k+1 >= n {
+				continue
+			}
+			c := BigCase{N: n, K: k, Stride: 2 + (n+k)%4}
+			ev.Default.CaseHash(uint64(n)<<32|uint64(k)|1<<62, "size-sweep", true, func() any { return c })
+			if !run.One(t, bigSpec, c) {
+				return
+			}
+		}
+	}
+}
